@@ -5,6 +5,8 @@ import FlVerif.Lemmas.Norm
 import FlVerif.Props.C04
 import FlVerif.Gen.TermGen
 import FlVerif.Lemmas.CodeWeighted
+import FlVerif.Lemmas.CodeDiscrete
+import FlVerif.Lemmas.CodeDiscreteHighest
 
 /-! # C10 — Weighted defuzzifiers compute the grouped weighted average / sum
 
@@ -58,6 +60,38 @@ theorem code_weightedSum (ty : WType) (agg : Option (X ℚ → X ℚ → X ℚ))
      | .ok y => ∃ σ, Gen.Code.WeightedSum_defuzzify.run ty (some ⟨agg, acts⟩) {} = .ok σ ∧ σ.ret = some y) ∧
     Gen.Code.WeightedSum_defuzzify.run ty none {} = .error .value :=
   Op.Weighted.code_weightedSum ty agg acts
+
+/-! ## the Takagi-Sugeno terms and two more methods of `Aggregated`
+
+`Gen.Code.Term_update_reference`, `Linear_update_reference`, `Aggregated_range`, `Aggregated_highest_activated_term` are
+regenerated from `term.py` on every run.  The membership functions of the Takagi-Sugeno terms the defuzzifiers call -
+`Linear.membership` = `Op.Weighted.linear` row by row of the input values, `Constant.membership` = the value - are tied
+by `C03.code_linearMembership` and `C03.code_constantMembership` (Props/C03.lean). -/
+
+/-- **Tie A (code → model).**  `Term.update_reference` does nothing. -/
+theorem code_termUpdateReference (engine : Option Py.Disc.Engine) (σ : Gen.Code.Term_update_reference.S) :
+    Gen.Code.Term_update_reference.run engine σ = .ok σ :=
+  (Py.Disc.code_updateReference engine σ {}).1
+
+/-- **Tie A (code → model).**  `Linear.update_reference` stores the engine (or `None`) in the term. -/
+theorem code_linearUpdateReference (engine : Option Py.Disc.Engine) (τ : Gen.Code.Linear_update_reference.S) :
+    Gen.Code.Linear_update_reference.run engine τ = .ok { τ with self_engine := engine } :=
+  (Py.Disc.code_updateReference engine {} τ).2
+
+/-- **Tie A (code → model).**  `Aggregated.range()` is `maximum - minimum`. -/
+theorem code_aggregatedRange (minimum maximum : X ℚ) :
+    ∃ σ, Gen.Code.Aggregated_range.run minimum maximum {} = .ok σ ∧ σ.ret = some (X.sub maximum minimum) :=
+  Py.Disc.code_aggregatedRange minimum maximum
+
+/-- **Tie A (code → model).**  `Aggregated.highest_activated_term()` raises `ValueError` when the degree of some group
+    of `grouped_terms()` is a vector (`np.size` of it exceeds one) and otherwise returns what the model
+    `Op.Weighted.highestActivated` says: the first group with the strictly largest positive aggregated degree, `None`
+    when no group has a positive degree. -/
+theorem code_highestActivatedTerm (size_of : X ℚ → Nat) (agg : Option (X ℚ → X ℚ → X ℚ)) (acts : List (Act String ℚ)) :
+    match highestActivated size_of agg acts with
+    | none => Gen.Code.Aggregated_highest_activated_term.run size_of agg acts {} = .error .value
+    | some h => ∃ σ, Gen.Code.Aggregated_highest_activated_term.run size_of agg acts {} = .ok σ ∧ σ.ret = some h :=
+  Op.Weighted.code_highestActivatedTerm size_of agg acts
 
 /-! ## grouping -/
 
